@@ -302,6 +302,8 @@ namespace {
       return s + "?";
    }
 
+   void check(const char* what, bool ok);
+
    std::string obs_unit(std::size_t k)
    {
       const UnitEntry& u = units[k];
@@ -312,6 +314,9 @@ namespace {
          return nname(key_of(ns), &e);
       });
       s += " region=" + guarded([&] { return rname(u.unit->global_namespace().region()); });
+      // unnamed = named by THIS Lexicon's empty identifier (compared by address: no node of another Lexicon, alive or dead, is followed)
+      check("global_namespace_unnamed_in_its_own_lexicon", &u.unit->global_namespace().name() == &lexicon->get_identifier(u8""));
+      check("global_namespace_typed_namespace", &u.unit->global_namespace().type() == &lexicon->namespace_type());
       s += " module=" + (u.munit == nullptr ? std::string("-") : guarded([&] { return mname(u.munit->parent_module()); }));
       return s;
    }
@@ -413,7 +418,8 @@ namespace {
       if (op == "block" and w.size() == 2) {
          const ipr::Region* pr = region_arg(w[1]);
          if (pr == nullptr) return "bad-ref";
-         impl::Block* b = lexicon->make_block(*pr);
+         // both forms of the factory: without and with the (optional) type of the block
+         impl::Block* b = (counter++ % 2) ? lexicon->make_block(*pr) : lexicon->make_block(*pr, some_type());
          const ipr::Block& ib = *b;
          NodeEntry e { }; e.kind = NK::Block; e.block = &ib; e.iblock = b;
          return nname(key_of(ib), &e) + " region=" + rname(ib.region());
@@ -594,6 +600,15 @@ namespace {
 int main()
 {
    std::ios::sync_with_stdio(false);
+   {
+      // an earlier Lexicon of this process with units of every kind, destroyed before the observed one is created: what the observed
+      // Lexicon's units own (their unnamed global namespaces) must be its own
+      impl::Lexicon earlier;
+      impl::Translation_unit tu{earlier};
+      impl::Module mod{earlier};
+      mod.make_unit();
+      earlier.make_block(*tu.global_region(), earlier.int_type());
+   }
    lexicon = new impl::Lexicon { };
    std::string line;
    while (std::getline(std::cin, line)) {
